@@ -1,5 +1,6 @@
 // C15: shared between the generated list TUs and the harness.
 #pragma once
+#include <vector>
 #include <cassert>
 #include <cstddef>
 #include <cstdint>
@@ -224,6 +225,56 @@ namespace c15
         }
     }
 
+    // a functor that owns move-sensitive state, passed as a NON-CONST LVALUE and used again afterwards: whether the dispatcher refers to it or
+    // copies it is the library's choice, but dispatching must not gut the caller's object, and every dispatch invokes it (or its copy) exactly once
+    struct ProbeOwning
+    {
+        DispIO** cur;
+        std::vector<long> payload; // participates in the result
+        template <class A>
+        __attribute__((noinline)) long operator()(A, int& lv, const int& cv, Token tok)
+        {
+            DispIO& o = **cur;
+            o.calls++;
+            o.arch = arch_id<A>::value;
+            if (o.first_arch < 0)
+                o.first_arch = o.arch;
+            o.lv_seen = lv;
+            o.cv_seen = cv;
+            o.tok_seen = tok.payload;
+            lv = lv * 3 + 1;
+            long sum = 0;
+            for (long v : payload)
+                sum += v;
+            o.ret_expected = ret_value(o.arch, o.lv_seen, cv, tok.payload) + sum;
+            return o.ret_expected;
+        }
+    };
+    // returns the number of payload elements the caller's functor still holds after the two dispatches (3 if it was left alone)
+    template <class L>
+    int run_owning(DispIO& io, DispIO& io2, long* payload_sum_expected)
+    {
+        DispIO* cur = &io;
+        ProbeOwning f { &cur, { 101, 103, 9 } };
+        *payload_sum_expected = 213;
+        {
+            int lv = io.lv_in;
+            const int cv = io.cv_in;
+            Token tok(io.tok_in, &io.copies, &io.moves);
+            io.ret_got = xsimd::dispatch<L>(f)(lv, cv, std::move(tok));
+            io.lv_after = lv;
+        }
+        cur = &io2;
+        {
+            int lv = io2.lv_in;
+            const int cv = io2.cv_in;
+            Token tok(io2.tok_in, &io2.copies, &io2.moves);
+            io2.ret_got = xsimd::dispatch<L>(f)(lv, cv, std::move(tok));
+            io2.lv_after = lv;
+        }
+        return (int)f.payload.size();
+    }
+
     template <class L>
     struct list_ids;
     template <class... A>
@@ -245,12 +296,13 @@ namespace c15
         void (*val)(DispIO&);
         void (*ref)(DispIO&);
         void (*twice)(DispIO&, DispIO&);
+        int (*owning)(DispIO&, DispIO&, long*);
     };
 
     template <class L>
     ListEntry make_entry(const char* kind)
     {
-        return ListEntry { kind, list_ids<L>::n, list_ids<L>::get(), &run_val<L>, &run_ref<L>, &run_twice<L> };
+        return ListEntry { kind, list_ids<L>::n, list_ids<L>::get(), &run_val<L>, &run_ref<L>, &run_twice<L>, &run_owning<L> };
     }
 
     template <class C, class P>
